@@ -186,5 +186,13 @@ MonotoneAlone ==
         /\ NLeq(Get(s, id), HHGet(sk'[s], L, id, env.col[id]))
         /\ Get(s, id) = NCap => HHGet(sk'[s], L, id, env.col[id]) = NCap
 MonotoneAloneProp == [][MonotoneAlone]_vars
+(* C12 (heavy-hitter part): add(key, v) equals v single adds (no count at the ceiling) *)
+RECURSIVE HHUnitAdds(_, _, _, _)
+HHUnitAdds(skv, k, cols, n) == IF n = 0 THEN skv ELSE HHUnitAdds(HHAdd(skv, L, k, cols, NOf(1)), k, cols, n - 1)
+ValueIsUnitAddsHH ==
+  \A s \in Slots : ~sat[s] =>
+    \A id \in Ids, n \in 0..3 :
+       LET a == HHAdd(sk[s], L, id, env.col[id], NOf(n)) IN
+         ~AnyCellAtCap(a) => a = HHUnitAdds(sk[s], id, env.col[id], n)
 CountsBelowCap == \A s \in Slots, r \in 1..env.D, c \in 1..env.W : NLeq(sk[s].cells[r][c].cnt, NCap)
 =============================================================================
